@@ -34,11 +34,13 @@ def run(ctx: Ctx) -> None:
     flags = dict(zip(FIELDS[1:], ('calculate_gradient', 'calculate_hessian', 'calculate_bhhh')))
     # gated copies: gres = g if calculate_gradient else None
     gated = {}
+    # (normal form of `gres = g if calculate_gradient else None`: an if / else with one assignment in each arm)
     for n in walk_no_nested(calc.node):
-        if isinstance(n, ast.Assign) and isinstance(n.value, ast.IfExp) and isinstance(n.targets[0], ast.Name):
-            v = n.value
-            if unparse(v.orelse) == 'None' and unparse(v.body) in raw:
-                gated[n.targets[0].id] = (unparse(v.body), unparse(v.test), n)
+        if isinstance(n, ast.If) and len(n.body) == 1 and len(n.orelse) == 1 and all(isinstance(a, ast.Assign) and len(a.targets) == 1 and isinstance(a.targets[0], ast.Name) for a in (n.body[0], n.orelse[0])) \
+                and n.body[0].targets[0].id == n.orelse[0].targets[0].id:
+            a, b = n.body[0], n.orelse[0]
+            if unparse(b.value) == 'None' and unparse(a.value) in raw:
+                gated[a.targets[0].id] = (unparse(a.value), unparse(n.test), n)
     for fld, r in zip(FIELDS[1:], raw[1:]):
         hit = [(k, v) for k, v in gated.items() if v[0] == r]
         ok = len(hit) == 1 and hit[0][1][1] == flags[fld]
@@ -105,16 +107,18 @@ def run(ctx: Ctx) -> None:
         for fld in flds:
             key = fld + suffix
             st = [n for n in walk_no_nested(init.node) if isinstance(n, (ast.Assign, ast.AnnAssign)) and unparse(n.targets[0] if isinstance(n, ast.Assign) else n.target) == f'self.{key}']
-            if len(st) != 1:
-                ctx.add('C02.R1', f'{cname}.{key}', False, init, f'self.{key} is assigned {len(st)} times', key)
+            if not st:
+                ctx.add('C02.R1', f'{cname}.{key}', None, init, f'shape not recognised - expected: an assignment to self.{key}', key)
                 continue
-            refs = sorted({m for m in re.findall(r'function_output\.(\w+)', unparse(st[0].value))})
+            # the normal form writes `x = None if c else v` as two assignments under an if / else
+            guards = ' '.join(unparse(i.test) for i in walk_no_nested(init.node) if isinstance(i, ast.If) and any(a in ast.walk(i) for a in st))
+            alltext = ' '.join(unparse(a.value) for a in st)
+            refs = sorted({m for m in re.findall(r'function_output\.(\w+)', alltext + ' ' + guards)})
             ok = refs == [key]
             ctx.add('C02.R1', f'{cname}.{key}', ok, (init.file, st[0].lineno), f'self.{key} is built from function_output.{key}' if ok else f'self.{key} is built from function_output.{refs}', f'{key}<-{refs}')
             # rows and columns use the same mapping
             if fld in ('hessian', 'bhhh'):
-                maps = re.findall(r'convert_to_dict\([^()]*?,\s*(\w+)\)', unparse(st[0].value).replace('\n', ' '))
-                allmaps = set(re.findall(r',\s*(mapping|\w+)\s*\)', unparse(st[0].value).replace('\n', ' ')))
+                allmaps = set(re.findall(r',\s*(mapping|\w+)\s*\)', alltext.replace('\n', ' ')))
                 okm = allmaps == {'mapping'}
                 ctx.add('C02.R4', f'{cname}.{key}:mapping', okm, (init.file, st[0].lineno), 'rows and columns are named with the same mapping' if okm else f'mappings used: {sorted(allmaps)}', str(sorted(allmaps)))
     ctx.floor('C02.R1', 30)
